@@ -47,7 +47,10 @@ def check(repo: Repo, rep: Report) -> None:
         rep.ob("B3-subscribe-branches", sub, desc, ok,
                "a path through BehaviorSubject._subscribe_core does not register the observer and hand it the current value "
                "(live subject), or replay only the terminal notification (stopped subject)")
-    rep.require(n >= 3, "paths of BehaviorSubject._subscribe_core")
+    rep.require(n >= 2, "paths of BehaviorSubject._subscribe_core")
+    term = {e.split(":")[0] for p in SC.subscribe_paths(sub, obs) if not p.exc and p.decided("self.is_stopped") for e in p.kinds}
+    rep.ob("B3-subscribe-branches", sub, "stopped branch can replay an error and a completion", {"ERR", "COMPL"} <= term,
+           "a subscriber arriving after termination is never told about the recorded error (or never about completion)")
     core = repo.fn(B, "BehaviorSubject._on_next_core")
     SC.rule_snapshot(rep, core)
     SC.rule_state_before_callout(rep, core, False, False, need_value="value")
